@@ -107,9 +107,14 @@ type request struct {
 func (r *request) id() string { return "r" + strconv.Itoa(r.k) }
 
 type tcase struct {
-	s2s  bool
-	reqs []*request
-	ord  []int // order in which the peer deals with the requests
+	s2s bool
+	// "" ready-made session; "initiated" / "received": established through the
+	// library's default negotiator; layered: over a plain io.ReadWriter a
+	// negotiation step installed on top of the transport
+	negotiated string
+	layered    bool
+	reqs       []*request
+	ord        []int // order in which the peer deals with the requests
 }
 
 var iqEntries = []string{"SendIQ", "SendIQElement", "EncodeIQ", "EncodeIQElement", "UnmarshalIQ", "UnmarshalIQElement", "IterIQ", "IterIQElement"}
@@ -119,6 +124,14 @@ var scenarios = []string{"normal", "normal", "twice", "wrongkind", "unknownid", 
 
 func genCase(t *rapid.T) tcase {
 	tc := tcase{s2s: rapid.Bool().Draw(t, "s2s")}
+	switch rapid.IntRange(0, 5).Draw(t, "sessionKind") {
+	case 0:
+		tc.negotiated = "initiated"
+	case 1:
+		tc.negotiated = "received"
+	case 2:
+		tc.layered = true
+	}
 	n := rapid.IntRange(1, 6).Draw(t, "nreq")
 	for k := 0; k < n; k++ {
 		r := &request{k: k}
@@ -158,7 +171,7 @@ func seq(n int) []int {
 
 func (tc tcase) String() string {
 	var sb strings.Builder
-	fmt.Fprintf(&sb, "s2s=%v answer-order=%v", tc.s2s, tc.ord)
+	fmt.Fprintf(&sb, "s2s=%v session=%q layered=%v answer-order=%v", tc.s2s, tc.negotiated, tc.layered, tc.ord)
 	for _, r := range tc.reqs {
 		fmt.Fprintf(&sb, "\n  req %s: %s scenario=%s reply=%s read=%s hold=%v context-ends-while-held=%v early=%v ns=%q", r.id(), r.entry, r.scen, r.reply, r.read, r.hold, r.cancelHeld, r.early, r.nsForm)
 	}
@@ -369,7 +382,7 @@ func check(t interface {
 	Fatalf(string, ...any)
 }, tc tcase) {
 	t.Helper()
-	opts := wire.SessionOpts{}
+	opts := wire.SessionOpts{Negotiated: tc.negotiated, Layered: tc.layered}
 	if tc.s2s {
 		opts.State |= xmpp.S2S
 	}
@@ -800,6 +813,12 @@ func isTimeout(err error) bool {
 func classify(tc tcase) (bool, []string) {
 	var classes []string
 	abnormal, windows := 0, 0
+	if tc.negotiated != "" {
+		classes = append(classes, "session-negotiated-"+tc.negotiated)
+	}
+	if tc.layered {
+		classes = append(classes, "layered-transport")
+	}
 	for _, r := range tc.reqs {
 		classes = append(classes, "entry-"+r.entry, "scenario-"+r.scen)
 		if r.scen != "normal" {
